@@ -1,6 +1,7 @@
 (* C05 - parameters are decoded as the inverse of OpenAPI style serialisation. *)
 From KV Require Import Model.Base Model.Json Model.Schema Model.Request Model.Lookup Model.ParamCodec
      Spec.ParamSpec Proofs.C05Proofs Proofs.C05Object.
+From KV Require Import Model.DeepObject Proofs.DeepProofs.
 Local Open Scope list_scope.
 
 (* strings.Split inverts strings.Join for any separator and any non-empty list of elements that
@@ -126,3 +127,25 @@ Example C05_hyps_satisfiable :
   ser p (SArr ["x"; "yy"; "z=1"]) = mkFrag [("id", ";id=x;id=yy;id=z=1")] [] [] [] /\
   decode_param no_int no_int no_float p (ser p (SArr ["x"; "yy"; "z=1"])) = DRes (PA [PS "x"; PS "yy"; PS "z=1"]) true None.
 Proof. vm_compute. repeat split. Qed.
+
+(* ---- deepObject query parameters (Model/DeepObject.v; tied to the decoder by its own case stream) ---- *)
+(* after deepSet the path exists: it ends on the value just set, or on the nested object that was
+   there before (the nested form wins); a path that parts at the first key is not disturbed *)
+Theorem C05_deep_set_get : forall ks m v, ks <> [] ->
+  deep_get (deep_set m ks v) ks = Some (PLeaf v) \/
+  exists n, deep_get (deep_set m ks v) ks = Some (PNode n) /\ deep_get m ks = Some (PNode n).
+Proof. exact deep_set_get. Qed.
+Theorem C05_deep_set_other_key : forall k ks m v k' ks', k' <> k ->
+  deep_get (deep_set m (k :: ks) v) (k' :: ks') = deep_get m (k' :: ks').
+Proof. exact deep_set_other_key. Qed.
+Print Assumptions C05_deep_set_get.
+(* a test, not a theorem: one nested value (object in object, array of objects) through the model *)
+Example C05_deep_example :
+  let i := DSPrim (prim_core (Some ["integer"]) "") in
+  let s := DSPrim (prim_core (Some ["string"]) "") in
+  let sch := DSObj [("o", DSObj [("x", i); ("y", DSArr i)] None); ("rows", DSArr (DSObj [("k", s)] None))] None in
+  let pint := fun t => if String.eqb t "3" then Some 3%Z else if String.eqb t "4" then Some 4%Z else if String.eqb t "0" then Some 0%Z else if String.eqb t "1" then Some 1%Z else None in
+  deep_decode pint pint (fun _ => None) pint "f" sch
+    [("f[o][x]", ["3"]); ("f[o][y][0]", ["4"]); ("f[rows][0][k]", ["u"]); ("f[rows][1][k]", ["v"]); ("fs[o][x]", ["9"])]
+  = DRes (PO [("o", PO [("x", PI64 3); ("y", PA [PI64 4])]); ("rows", PA [PO [("k", PS "u")]; PO [("k", PS "v")]])]) true None.
+Proof. vm_compute. reflexivity. Qed.
